@@ -31,7 +31,7 @@ __all__ = (
 )
 
 def check_partition_infeasibility(infeasible_index, strict, stacklevel=1):
-    if infeasible_index.any():
+    if infeasible_index.size:
         if strict:
             raise InfeasibleRegion('negative flow rates in equilibrium '
                                    'solution; partition data')
